@@ -73,7 +73,7 @@ Fixpoint nocall (q : query) : bool :=
   | QBind s _ b => nocall s && nocall b
   | QDef _ _ body rest => nocall rest        (* the body is never run *)
   | QCallF _ _ => false
-  | QObject _ | QBindP _ _ _ | QIndexQ _ _ | QSlice _ _ _ => false        (* not needed by the operands this condition is used for *)
+  | QObject _ | QBindP _ _ _ | QIndexQ _ _ | QSlice _ _ _ | QCall1 _ _ => false        (* not needed by the operands this condition is used for *)
   end.
 
 Lemma lookup_v_skip : forall x pre d ps body rho, lookup_v x (pre ++ (d, BF ps body) :: rho) = lookup_v x (pre ++ rho).
@@ -110,14 +110,23 @@ Proof.
   - rewrite IHq by auto. reflexivity.
   - rewrite IHi by auto. apply bind_list_ext'. intros s0. rewrite IHs by auto.
     destruct (den1 nt call s (pre ++ rho) v) as [ws sx].
-    rewrite (reduce_fold_ext _ (fun w acc => den1 nt call u ((x, BV w) :: pre ++ rho) acc)); [reflexivity|].
-    intros w acc. exact (IHu H0 ((x, BV w) :: pre) d ps0 body0 rho acc).
+    rewrite (reduce_fold_ext _ (fun w acc => match pmatch nt x w with
+                                             | inl bs => den1 nt call u (bs ++ pre ++ rho) acc
+                                             | inr e0 => ([], Some (XErr e0)) end)); [reflexivity|].
+    intros w acc. destruct (pmatch nt x w) as [bs|e0]; [|reflexivity]. rewrite !app_assoc. exact (IHu H0 (bs ++ pre) d ps0 body0 rho acc).
   - rewrite IHi by auto. apply bind_list_ext'. intros s0. rewrite IHs by auto.
     destruct (den1 nt call s (pre ++ rho) v) as [ws sx].
-    rewrite (foreach_fold_ext _ (fun w acc => den1 nt call u ((x, BV w) :: pre ++ rho) acc) _
-               (fun w u0 => match e with Some e0 => den1 nt call e0 ((x, BV w) :: pre ++ rho) u0 | None => ([u0], None) end)); [reflexivity| |].
-    + intros w acc. exact (IHu H1 ((x, BV w) :: pre) d ps0 body0 rho acc).
-    + intros w u0. destruct e as [e0|]; [|reflexivity]. simpl in IHe. exact (IHe H0 ((x, BV w) :: pre) d ps0 body0 rho u0).
+    rewrite (foreach_fold_ext _ (fun w acc => match pmatch nt x w with
+                                              | inl bs => den1 nt call u (bs ++ pre ++ rho) acc
+                                              | inr e0 => ([], Some (XErr e0)) end) _
+               (fun w u0 => match e with
+                            | Some e0 => match pmatch nt x w with
+                                         | inl bs => den1 nt call e0 (bs ++ pre ++ rho) u0
+                                         | inr e1 => ([], Some (XErr e1)) end
+                            | None => ([u0], None) end)); [reflexivity| |].
+    + intros w acc. destruct (pmatch nt x w) as [bs|e0]; [|reflexivity]. rewrite !app_assoc. exact (IHu H1 (bs ++ pre) d ps0 body0 rho acc).
+    + intros w u0. destruct e as [e0|]; [|reflexivity]. simpl in IHe. destruct (pmatch nt x w) as [bs|e1]; [|reflexivity].
+      rewrite !app_assoc. exact (IHe H0 (bs ++ pre) d ps0 body0 rho u0).
   - rewrite IHb by auto. reflexivity.
   - rewrite IHs by auto. apply bind_list_ext'. intros w. exact (IHb H0 ((x, BV w) :: pre) d ps0 body0 rho v).
   - rewrite lookup_v_skip. reflexivity.
